@@ -100,7 +100,11 @@ CLAIMS["C20"] = dict(
          "rest (Pending, not woken, every scripted step consumed) with every well-behaved sibling resolved to its value; "
          "C20_race_delivers / C20_race_ok_delivers: a well-behaved (Ok) sibling's result is delivered next to "
          "never-completing ones; C20_merge_delivers: every item of every well-behaved input has been yielded and those "
-         "inputs have ended; C20_zip_progress_false: the statement is false for zip (why the property excludes it).",
+         "inputs have ended; C20_zip_progress_false: the statement is false for zip (why the property excludes it). C20_group_delivers (+_busy; "
+         "FcProps/C20liveG.lean): the same for FutureGroup / StreamGroup, plain and keyed, both strategies, every "
+         "schedule: members well-behaved or never-completing; the run drains or comes to rest with every well-behaved "
+         "member released and its value / all its items yielded, exactly the never-completing members still in the group; "
+         "C20_group_atRest_stuck: at rest nothing is left to do under any schedule.",
     note=TB,
     design_ref="DESIGN.md §7 C20")
 
